@@ -255,6 +255,7 @@ _verdict(ratio < 2.0 ** 5, errors=[float(e) for e in errs], observed_order=float
 
 def main():
     chk = Check(PID)
+    chk.default_replay = lambda: _replay_series(7)
     import hiten.algorithms.hamiltonian.center._lie as cl
     import hiten.algorithms.hamiltonian.normal._lie as nl
     import hiten.algorithms.hamiltonian.lie as lie
